@@ -315,7 +315,52 @@ def r11(ctx):
     ctx.floor(R, 2)
 
 
+def r12(ctx):
+    R = "C08-R12"
+    ctx.rule(R, "everything one host tells another travels as a message over the link: no type reachable from turmoil::envelope::Protocol "
+                "(Protocol -> Segment -> Syn, Datagram ..) has a field holding a live channel endpoint or shared handle (oneshot / mpsc / "
+                "watch / broadcast Sender or Receiver, Notify, Arc, Rc). A receiver that can answer through such a field bypasses hold, "
+                "partition and latency, and its answer never shows in Sim::links")
+    seen, work, n = set(), ["turmoil::envelope::Protocol"], 0
+    SIDE = re.compile(r"\b(oneshot|mpsc|watch|broadcast)::(Sender|Receiver|UnboundedSender|UnboundedReceiver)\b|\bNotify\b|\bArc<|\bRc<|\bSemaphore\b")
+    while work:
+        aid = work.pop()
+        if aid in seen:
+            continue
+        seen.add(aid)
+        a = ctx.w.adts.get(aid)
+        if not a or not a.get("local"):
+            continue
+        tys = ctx.w.tys[a["crate"]]
+        for v in a["variants"]:
+            for f in v["fields"]:
+                if "ty" not in f:
+                    continue
+                ts = tys[f["ty"]]["s"]
+                n += 1
+                bad = SIDE.search(ts)
+                who = f"{aid}::{v['name']}::{f['name']}" if a["kind"] == "enum" else f"{aid}::{f['name']}"
+                ctx.inst(R, f"side-channel:{who}", not bad, a.get("span", ""), f"plain data ({ts})" if not bad else
+                         f"`{who}` is a `{ts}` inside a network message: the receiving host answers through it without sending a message - "
+                         "the TCP SYN-ACK is `syn.ack.send(())` in TcpListener::accept, so a connect completes across a held link and the reply is never in Sim::links")
+                def adts_of(i, d=0):
+                    t = tys[i]
+                    out = [t["adt"]] if t.get("adt") else []
+                    if d < 4:
+                        for x in t.get("args", ()) or ():
+                            if isinstance(x, int):
+                                out += adts_of(x, d + 1)
+                        if "inner" in t:
+                            out += adts_of(t["inner"], d + 1)
+                    return out
+                work += [x for x in adts_of(f["ty"]) if x.startswith("turmoil")]
+    if "turmoil::envelope::Protocol" not in ctx.w.adts and ctx.strict:
+        ctx.bad(R, "anchor-missing:turmoil::envelope::Protocol", "", "message type not found")
+    ctx.floor(R, 4)
+
+
 def run(ctx):
+    r12(ctx)
     r11(ctx)
     scan_rule(ctx, "C08")
     r1(ctx)
